@@ -197,10 +197,16 @@ func c12Gen(seed int64, idx int) c12Case {
 			// is looked up from the scope of its uses outwards, in a submodule as in a module)
 			str := func(n string) *yang.Stmt { return yang.S("leaf", n, yang.S("type", "string")) }
 			mod := func() *yang.Stmt {
-				return yang.S("module", "fx-sm", yang.S("namespace", "urn:verif:fx-sm"), yang.S("prefix", "sm"), yang.S("include", "fx-sm-sub"), yang.S("container", "in-module", str("m1")))
+				// (the module and its submodule bind the prefix b to different modules, and both write augment paths with it)
+				return yang.S("module", "fx-sm", yang.S("namespace", "urn:verif:fx-sm"), yang.S("prefix", "sm"), yang.S("import", "fx-ta", yang.S("prefix", "b")), yang.S("include", "fx-sm-sub"),
+					yang.S("container", "in-module", str("m1")),
+					yang.S("augment", "/b:top1", str("from-mod")), yang.S("augment", "/b:top1/b:sys", str("from-mod-deeper")))
 			}
+			ta := yang.S("module", "fx-ta", yang.S("namespace", "urn:verif:fx-ta"), yang.S("prefix", "ta"), yang.S("container", "top1", str("a1"), yang.S("container", "sys", str("a2"))))
+			tb := yang.S("module", "fx-tb", yang.S("namespace", "urn:verif:fx-tb"), yang.S("prefix", "tb"), yang.S("container", "top2", str("b1"), yang.S("container", "sys", str("b2"))))
 			sub := func(inline bool) *yang.Stmt {
-				s := yang.S("submodule", "fx-sm-sub", yang.S("belongs-to", "fx-sm", yang.S("prefix", "sm")))
+				s := yang.S("submodule", "fx-sm-sub", yang.S("belongs-to", "fx-sm", yang.S("prefix", "sm")), yang.S("import", "fx-tb", yang.S("prefix", "b")),
+					yang.S("augment", "/b:top2/b:sys", str("from-sub")), yang.S("augment", "/b:top2", str("from-sub-higher")))
 				if inline {
 					s.Add(yang.S("container", "sc", str("x"), yang.S("container", "xc", str("deep")), str("own")),
 						yang.S("list", "sl", yang.S("key", "k"), str("k"), str("y")),
@@ -214,8 +220,14 @@ func c12Gen(seed int64, idx int) c12Case {
 				}
 				return s
 			}
-			c.ms = &yang.ModSet{Mods: []*yang.Stmt{mod(), sub(false)}}
-			c.inlined = &yang.ModSet{Mods: []*yang.Stmt{mod(), sub(true)}}
+			c.ms = &yang.ModSet{Mods: []*yang.Stmt{mod(), sub(false), ta, tb}}
+			c.inlined = &yang.ModSet{Mods: []*yang.Stmt{mod(), sub(true), ta.Clone(), tb.Clone()}}
+			for _, ms := range []*yang.ModSet{c.ms, c.inlined} {
+				yang.SortSections(ms.Mods[0])
+				yang.SortSections(ms.Mods[1])
+			}
+			// (what Module() says of a node written in a submodule is not asserted)
+			c.augmentedBy = map[string]string{"from-mod": "fx-sm", "from-mod-deeper": "fx-sm"}
 			c.inheritedWhens = map[string]bool{"sel = 'a'": true}
 			return c
 		}
